@@ -210,12 +210,16 @@ def expression_to_tree(expression: list[Token], tokenizer: Tokenizer, datapack: 
     operator_stack: list[Operator | OpenBracket] = []
     number_stack: list[Number] = []
 
-    def process_stack(is_consume_bracket: bool = False):
+    def process_stack(is_consume_bracket: bool = False, incoming: Operator | None = None):
         while operator_stack:
             operator = operator_stack.pop()
             if isinstance(operator, OpenBracket):
                 if not is_consume_bracket:
                     operator_stack.append(operator)
+                break
+            if incoming is not None and not incoming.get_order() < operator.get_order():
+                # Operators that bind less tightly than the incoming one wait for its operand
+                operator_stack.append(operator)
                 break
             if len(number_stack) < 2:
                 raise JMCSyntaxException(
@@ -230,8 +234,7 @@ def expression_to_tree(expression: list[Token], tokenizer: Tokenizer, datapack: 
             number_stack.append(Constant(token.string, token))
         elif token.string in OPERATOR_STRINGS:
             operator = Operator(token.string, token)
-            if operator_stack and operator.get_order() < operator_stack[-1].get_order():
-                process_stack()
+            process_stack(incoming=operator)
             operator_stack.append(operator)
         elif token.token_type == TokenType.PAREN_CURLY:
             tokenizer_ = Tokenizer(
